@@ -306,7 +306,7 @@ def falsified_only_when_inconsistent(it, rle, vrle, result, variableLength):
 
 
 contract(RX + 'expand_or_falsify_vrle', props=['C03'],
-         params=dict(rle=T.custom(_rle_arg), vrle=T.custom(_vrle_arg), fixed=T.const(False),
+         params=dict(rle=T.custom(_rle_arg), vrle=T.custom(_vrle_arg), fixed=T.bool,
                      variableLength=T.bool),
          spec_env=dict(ENV, expanded_ok=expanded_ok,
                        falsified_only_when_inconsistent=falsified_only_when_inconsistent),
@@ -678,7 +678,9 @@ def _extract_self(it):
 
     def check_fn(it2, rexes, maxN):
         _may_raise(it2, 'check_fn')
-        return (examples_obj(it2, 'failures'), it2.fresh_opaque('re_freqs'))
+        f = examples_obj(it2, 'failures')
+        it2.ghost['last_failures'] = f
+        return (f, it2.fresh_opaque('re_freqs'))
     o = SObj('Extractor', {'seed': it.fresh(T.union(T.none, T.int), 'seed'), 'size': size, 'examples': ex,
                            'verbose': False, 'results': None, 'check_fn': Builtin(check_fn, 'check_fn')},
              label='self')
@@ -690,7 +692,14 @@ def _extract_self(it):
             return ret(it2)
         o.methods[name] = Builtin(m, 'Extractor.' + name)
     method('batch_extract', lambda it2: results)
-    method('clean', lambda it2: examples_obj(it2, 'cleaned'))
+    def clean(it2, self, examples):
+        # (C18) the unmatched examples go back into the working set with the counts check_fn reported for them:
+        # what is cleaned is the Examples object itself, not a bare list of its strings
+        it2.path.oblige('Extractor.extract.post.unmatched-examples-are-merged-with-their-counts',
+                        z3.BoolVal(examples is it2.ghost.get('last_failures')))
+        _may_raise(it2, 'clean')
+        return examples_obj(it2, 'cleaned')
+    o.methods['clean'] = Builtin(clean, 'Extractor.clean')
     method('add_warnings', lambda it2: None)
     method('find_bad_patterns', lambda it2: it2.fresh_opaque('bad_patterns'))
     method('convert_rex_to_dialect', lambda it2: None)
@@ -737,7 +746,7 @@ def prng_bracket_closed(it, self):
     return g['saved'] == 1 and g['restored'] == 1 and not g['outside'] and g['seed'] is self.attrs['seed']
 
 
-contract(RX + 'Extractor.extract', props=['C14'], params={}, self_view=_extract_self, on_entry=_extract_entry,
+contract(RX + 'Extractor.extract', props=['C14', 'C18'], params={}, self_view=_extract_self, on_entry=_extract_entry,
          spec_env=dict(ENV, prng_bracket_open=prng_bracket_open, prng_bracket_closed=prng_bracket_closed),
          allow_raise={'CalleeError': 'True'},
          loops={1: LoopSpec([('generator-state-saved-and-not-yet-restored', 'prng_bracket_open()'),
